@@ -38,6 +38,10 @@ def main():
             os.execve(sys.executable, [sys.executable] + sys.argv, env)
 
     sys.path.insert(0, core.REPO)
+    import logging
+    # keep pyworkers' log calls live (they are part of the code under test) but silent
+    logging.getLogger('pyworkers').addHandler(logging.NullHandler())
+    logging.getLogger('pyworkers').propagate = False
     try:
         mod = importlib.import_module('props.' + a.prop.lower())
     except ImportError as e:
